@@ -11,6 +11,7 @@ import (
 	"verif/ref/refchain"
 	"verif/sim"
 
+	"github.com/btcsuite/btcd/address/v2"
 	"github.com/btcsuite/btcd/blockchain"
 	"github.com/btcsuite/btcd/btcutil/v2"
 	"github.com/btcsuite/btcd/chaincfg/v2"
@@ -198,6 +199,64 @@ func (w *world) gateProbe(r *mon.Rand, csv *dep) {
 	}
 }
 
+// gateProbeOpcode: the other rule gated on the CSV deployment is the opcode itself. A template that creates a P2SH
+// output with the redeem script "1 OP_CHECKSEQUENCEVERIFY OP_DROP OP_TRUE" and spends it in the same block with a
+// version-2 input of sequence 0 is valid while the opcode is a NOP and invalid (operand 1 > sequence 0) from the first
+// block of the Active window on.
+func (w *world) gateProbeOpcode(r *mon.Rand, csv *dep) {
+	tip := w.s.Tip
+	var c *chaingen.Spendable
+	coins := w.g.Mature(w.g.Wallet(tip), tip.Height+1)
+	for i := range coins {
+		if sc := coins[i].Coin.PkScript; len(sc) == 1 && sc[0] == 0x51 {
+			c = &coins[i]
+			break
+		}
+	}
+	if c == nil {
+		w.k.Count("gate.opcode.no-anyone-can-spend-coin", 1)
+		return
+	}
+	redeem := []byte{0x51, 0xb2, 0x75, 0x51}
+	h := address.Hash160(redeem)
+	t1 := wire.NewMsgTx(1)
+	t1.AddTxIn(&wire.TxIn{PreviousOutPoint: c.Op, Sequence: 0xffffffff})
+	t1.AddTxOut(&wire.TxOut{Value: c.Coin.Amount, PkScript: append(append([]byte{0xa9, 0x14}, h...), 0x87)})
+	t2 := wire.NewMsgTx(2)
+	t2.AddTxIn(&wire.TxIn{PreviousOutPoint: wire.OutPoint{Hash: t1.TxHash(), Index: 0}, Sequence: 0,
+		SignatureScript: append([]byte{byte(len(redeem))}, redeem...)})
+	t2.AddTxOut(&wire.TxOut{Value: c.Coin.Amount, PkScript: []byte{0x51}})
+	blk := w.g.Block(r, tip, chaingen.BlockOpts{NTx: 0, Name: "probe-op", Label: refchain.InvalidEarly, Rule: "bc:probe",
+		Mutate: func(d *chaingen.Draft) { d.Msg.Transactions = append(d.Msg.Transactions, t1, t2) }})
+	err := w.s.N.Chain.CheckConnectBlockTemplate(btcutil.NewBlock(blk.Msg))
+	st := refbip9.StateAfter(tip, &csv.ref)
+	active := st == refbip9.Active
+	pos := "mid-window"
+	switch win := int32(w.g.P.MinerConfirmationWindow); (tip.Height + 1) % win {
+	case 0:
+		pos = "first-of-window"
+	case win - 1:
+		pos = "last-of-window"
+	}
+	if active && err == nil {
+		w.s.Fail("gate:csv-opcode-not-enforced-when-active", "template with an unmet OP_CHECKSEQUENCEVERIFY accepted although CSV is Active for height %d (%s)", tip.Height+1, pos)
+	}
+	if !active && err != nil {
+		w.s.Fail("gate:csv-opcode-enforced-before-active", "template with OP_CHECKSEQUENCEVERIFY as a NOP refused (%v) although CSV is %v for height %d (%s)", err, st, tip.Height+1, pos)
+	}
+	if active {
+		w.k.Count("gate.opcode.active", 1)
+	} else {
+		w.k.Count("gate.opcode.inactive", 1)
+	}
+	if st == refbip9.LockedIn && pos == "last-of-window" {
+		w.k.Count("gate.opcode.last-locked-in-block", 1)
+	}
+	if active && pos == "first-of-window" && refbip9.StateAfter(tip.Parent, &csv.ref) == refbip9.LockedIn {
+		w.k.Count("gate.opcode.first-active-block", 1)
+	}
+}
+
 func runCase(k *mon.Case) {
 	r := k.Rand
 	p := node.NewParams(node.FamRegtest)
@@ -250,7 +309,11 @@ func runCase(k *mon.Case) {
 			k.Count("vote.blocks_with_foreign_top_bits", 1)
 		}
 		step := int64(300 + r.Intn(900))
-		return g.Block(r, parent, chaingen.BlockOpts{NTx: r.Intn(2), Version: int32(v), TimeStep: step})
+		bo := chaingen.BlockOpts{NTx: r.Intn(2), Version: int32(v), TimeStep: step}
+		if r.Chance(1, 3) {
+			bo.CoinbaseKind = chaingen.KTrue // anyone-can-spend coins for the opcode gate probe
+		}
+		return g.Block(r, parent, bo)
 	}
 	newPlan := func() *plan {
 		pl := &plan{bias: make([]int, len(deps)), exact: make([][]bool, len(deps)), top: 0x20000000}
@@ -288,8 +351,16 @@ func runCase(k *mon.Case) {
 		if r.Chance(1, 10) {
 			forkPoints = append(forkPoints, tip)
 		}
-		if csv != nil && r.Chance(1, 3) {
+		// the rules gated on CSV: probed at random heights and always for the last block of a window and the
+		// first block of the next one
+		if nh := i + 2; csv != nil && (nh%win == 0 || nh%win == win-1) {
 			w.gateProbe(r, csv)
+			w.gateProbeOpcode(r, csv)
+		} else if csv != nil && r.Chance(1, 3) {
+			w.gateProbe(r, csv)
+			if r.Chance(1, 3) {
+				w.gateProbeOpcode(r, csv)
+			}
 		}
 		if r.Chance(1, 25) {
 			w.checkAnywhere(r, 10)
@@ -364,5 +435,9 @@ func main() {
 		c.Require("check.anywhere", 2000)
 		c.Require("gate.active", 20)
 		c.Require("gate.inactive", 20)
+		c.Require("gate.opcode.active", 20)
+		c.Require("gate.opcode.inactive", 20)
+		c.Require("gate.opcode.last-locked-in-block", 5)
+		c.Require("gate.opcode.first-active-block", 5)
 	})
 }
